@@ -234,6 +234,7 @@ Inductive obs :=
 | OQuiet.                   (* the driver saw every library goroutine gone *)
 
 Variable res_eqb : res -> res -> bool.
+Variable ev_eqb : ev -> ev -> bool.
 
 Definition dres_eqb (a b : dres) : bool :=
   match a, b with
@@ -246,6 +247,47 @@ Definition dres_eqb (a b : dres) : bool :=
 Definition last_is (l : list dres) (v : dres) : bool :=
   match rev l with x :: _ => dres_eqb x v | [] => false end.
 
+(* state equality test, used only to keep the state sets small (soundness does not depend on it) *)
+Fixpoint list_eqb {A} (eqb : A -> A -> bool) (a b : list A) : bool :=
+  match a, b with
+  | [], [] => true
+  | x :: a', y :: b' => eqb x y && list_eqb eqb a' b'
+  | _, _ => false
+  end.
+Definition site_eqb (a b : site) : bool :=
+  match a, b with SLoop, SLoop | SErr, SErr | SValue, SValue => true | _, _ => false end.
+Definition exit_eqb (a b : exit) : bool :=
+  match a, b with
+  | ExitEnd, ExitEnd | ExitCancel, ExitCancel | ExitOnce, ExitOnce | ExitSilent, ExitSilent | ExitOneShot, ExitOneShot => true
+  | _, _ => false
+  end.
+Definition setup_eqb (a b : setup) : bool :=
+  match a, b with
+  | SetChan, SetChan | SetErr, SetErr | SetSilent, SetSilent => true
+  | SetValue x, SetValue y => ev_eqb x y
+  | _, _ => false
+  end.
+Definition pc_eqb (a b : pc) : bool :=
+  match a, b with
+  | POneSend, POneSend | POneClose, POneClose | PRecv, PRecv => true
+  | PStart x, PStart y => setup_eqb x y
+  | PExec e k, PExec e' k' => ev_eqb e e' && site_eqb k k'
+  | PSend v k, PSend v' k' => dres_eqb v v' && site_eqb k k'
+  | PClosing w, PClosing w' | PDone w, PDone w' => exit_eqb w w'
+  | _, _ => false
+  end.
+Definition st_eqb (a b : st) : bool :=
+  list_eqb ev_eqb (srcq a) (srcq b) && list_eqb ev_eqb (inch a) (inch b) && Bool.eqb (sclosed a) (sclosed b) &&
+  pc_eqb (fwd a) (fwd b) && list_eqb dres_eqb (buf a) (buf b) && Bool.eqb (rclosed a) (rclosed b) &&
+  list_eqb dres_eqb (out a) (out b) && Bool.eqb (seen_closed a) (seen_closed b) &&
+  Bool.eqb (stopped a) (stopped b) && Bool.eqb (cancelled a) (cancelled b).
+
+Fixpoint dedup (l : list st) : list st :=
+  match l with
+  | [] => []
+  | x :: r => if existsb (st_eqb x) r then dedup r else x :: dedup r
+  end.
+
 Definition opt_list {A} (o : option A) : list A := match o with Some x => [x] | None => [] end.
 
 (* one round of library steps from every state of the set *)
@@ -255,7 +297,7 @@ Definition lib_round (ss : list st) : list st :=
 Fixpoint lib_closure (fuel : nat) (ss : list st) : list st :=
   match fuel with
   | O => ss
-  | S f => ss ++ lib_closure f (lib_round ss)
+  | S f => ss ++ lib_closure f (dedup (lib_round ss))
   end.
 
 Definition obs_step (s : st) (o : obs) : list st :=
@@ -272,7 +314,7 @@ Definition obs_step (s : st) (o : obs) : list st :=
 Definition closure_fuel (ss : list st) : nat := S (fold_right (fun s m => Nat.max (measure s) m) 0 ss).
 
 Definition obs_after (ss : list st) (o : obs) : list st :=
-  flat_map (fun s => obs_step s o) (lib_closure (closure_fuel ss) ss).
+  dedup (flat_map (fun s => obs_step s o) (dedup (lib_closure (closure_fuel ss) ss))).
 
 Fixpoint obs_run (ss : list st) (os : list obs) : list st :=
   match os with
